@@ -224,5 +224,73 @@ def run(ctx, per_class_subsets, draws):
             ctx.oracle_fail(s, w, {'cls': 'File', 'texts': texts})
 
 
+def _comment(r, via, indent):
+    text = r.choice(['note', 'two\nlines', 'x  y'])
+    if via == 'value':
+        return models.BlockComment.from_value(text, indent=indent)
+    raw = ''.join(f'{indent}; {line}\n' for line in text.split('\n'))[:-1]   # (uniform spacing: neighbouring blocks merge on re-parse)
+    if via == 'raw':
+        return models.BlockComment.from_raw_text(raw)
+    return edits.P().parse_token(raw, models.BlockComment)
+
+
+def run_children(ctx, n):
+    """`from_children` with children built by the public token / model constructors, block comments through EVERY one of
+    them (from_value, from_raw_text, parse_token) as leading / trailing comments and as standalone entries: the constructed
+    tree is judged like every other one, plus the ownership census (owned <=> claimed, one owner) and one auto_claim pass
+    that must change nothing."""
+    import commentsx
+    r = ctx.rng
+    D = decimal.Decimal
+    for _ in range(n):
+        vias = [r.choice(['value', 'raw', 'token']) for _ in range(6)]
+        ind = r.choice(['  ', '    ', '\t'])
+        date = lambda: models.Date.from_value(datetime.date(2000 + r.randrange(20), 1 + r.randrange(12), 1 + r.randrange(28)))
+        acc = lambda: models.Account.from_value(r.choice(docs.ACCOUNTS))
+        opt = lambda f: f() if r.random() < 0.6 else None
+        meta_item = lambda i: models.MetaItem.from_children(
+            models.MetaKey.from_value(r.choice(docs.KEYS)), models.EscapedString.from_value('v'), indent=models.Indent.from_value(i),
+            leading_comment=opt(lambda: _comment(r, vias[0], i)), trailing_comment=opt(lambda: _comment(r, vias[1], i)))
+        posting = lambda: models.Posting.from_children(
+            acc(), models.NumberExpr.from_value(D('1.5')), models.Currency.from_value('USD'), indent=models.Indent.from_value(ind),
+            leading_comment=opt(lambda: _comment(r, vias[2], ind)), trailing_comment=opt(lambda: _comment(r, vias[3], ind)),
+            meta=[x for x in (opt(lambda: _comment(r, vias[4], ind + '  ')), meta_item(ind + '  ')) if x is not None])
+        kind = r.choice(['close', 'txn', 'txn'])
+        try:
+            if kind == 'close':
+                d = models.Close.from_children(date(), acc(), leading_comment=opt(lambda: _comment(r, vias[2], '')),
+                                               trailing_comment=opt(lambda: _comment(r, vias[3], '')),
+                                               meta=[x for x in (opt(lambda: _comment(r, vias[4], ind)), meta_item(ind)) if x is not None])
+            else:
+                posts = [posting() for _ in range(r.choice([1, 2]))]
+                if r.random() < 0.4:
+                    posts.insert(r.randrange(len(posts) + 1), _comment(r, vias[5], ind))
+                d = models.Transaction.from_children(date(), models.TransactionFlag.from_value('*'), None, models.EscapedString.from_value('n'), posts,
+                                                     leading_comment=opt(lambda: _comment(r, vias[0], '')), trailing_comment=opt(lambda: _comment(r, vias[1], '')))
+            items = [d]
+            if r.random() < 0.5:
+                items.insert(r.randrange(2), _comment(r, vias[5], ''))
+            f = models.File.from_children(items)
+        except Exception as e:
+            ctx.oracle_fail(f'C15:from_children-raises:{kind}:{type(e).__name__}', str(e)[:200], {'cls': kind, 'vias': vias})
+            continue
+        ctx.case(('from_children', kind, tuple(sorted(set(vias)))))
+        ctx.count('from_children:' + kind)
+        rep = {'cls': 'File', 'kind': 'from_children', 'vias': vias, 'text': intro.pr(f)}
+        fails = check_one(models.File, f, 'children')
+        if not fails:
+            bad = commentsx.check_census(f)
+            if bad:
+                fails = [(f'C15:census:{bad[0][0]}', bad[0][1] + ' (constructed tree)')]
+        if not fails:
+            before = commentsx.census_key(f)
+            text = intro.pr(f)
+            f.auto_claim_comments()
+            if commentsx.census_key(f) != before or intro.pr(f) != text:
+                fails = [('C15:auto-claim-changes-constructed-tree', 'auto_claim_comments() on a freshly constructed tree changed the attribution or the text')]
+        for s_, w in fails[:1]:
+            ctx.oracle_fail(s_, w, rep)
+
+
 DIRECTIVE_NAMES = {'Balance', 'Close', 'Commodity', 'Custom', 'Document', 'Event', 'Include', 'Note', 'Open', 'Option', 'Pad',
                    'Plugin', 'Popmeta', 'Poptag', 'Price', 'Pushmeta', 'Pushtag', 'Query', 'Transaction'}
